@@ -62,7 +62,7 @@ def gauss_snapshot(be):
 
 # --------------------------------------------------------------------------- bosonic backend
 
-def bosonic_backend(g, n, J=1, name="", active=None, real_means=False):
+def bosonic_backend(g, n, J=1, name="", active=None, real_means=False, real_weights=False):
     from strawberryfields.backends.bosonicbackend.backend import BosonicBackend
     from strawberryfields.backends.bosonicbackend import bosoniccircuit as bc
     be = BosonicBackend()
@@ -74,7 +74,7 @@ def bosonic_backend(g, n, J=1, name="", active=None, real_means=False):
     st.from_xp = bc.from_xp(n)
     ws, ms, cs = [], [], []
     for j in range(J):
-        ws.append(g.complex("%sw%d" % (name, j)) if J > 1 else (g.real("%sw0" % name) + 0j if not g.sym else g.real("%sw0" % name)))
+        ws.append((g.real("%sw%d" % (name, j)) + (0 if g.sym else 0j)) if real_weights else g.complex("%sw%d" % (name, j)) if J > 1 else (g.real("%sw0" % name) + 0j if not g.sym else g.real("%sw0" % name)))
         if real_means:
             ms.append(g.rvec("%smu%d_" % (name, j), 2 * n))
         else:
